@@ -103,7 +103,7 @@ def check(case, ctx):
     if name == "randomize_graph_partial_und":
         B = np.array(case["B"], dtype=float)
         with rewire.SwapRecorder() as rec:
-            o = ctx.call(fn, W.copy(), B, case["maxswap"], seed=seed, timeout=1.5)
+            o = ctx.call(fn, gen.layout(W.copy(), case.get("order")), B, case["maxswap"], seed=seed, timeout=1.5)
         if o.status == "timeout":
             return fails
         if not o.ok:
@@ -135,9 +135,9 @@ def check(case, ctx):
     D = None if D is None else np.array(D, dtype=float)
     with rewire.SwapRecorder() as rec:
         if latt:
-            o = ctx.call(fn, W.copy(), case["itr"], D=D, seed=seed)
+            o = ctx.call(fn, gen.layout(W.copy(), case.get("order")), case["itr"], D=D, seed=seed)
         else:
-            o = ctx.call(fn, W.copy(), case["itr"], seed=seed)
+            o = ctx.call(fn, gen.layout(W.copy(), case.get("order")), case["itr"], seed=seed)
     if o.status == "timeout":
         return fails
     if o.status == "reject":
@@ -239,7 +239,8 @@ def cases(draw, names, nmax):
     A = rewire.shuffle(draw, A)
     n = len(A)
     W = draw(gen.weights_for(A, draw(st.sampled_from(["bin", "dyadic"])), directed))
-    case = {"fn": name, "kind": "rewire", "W": W, "itr": draw(st.sampled_from([1, 2, 5])), "seed": seed, "family": fam}
+    case = {"fn": name, "kind": "rewire", "W": W, "itr": draw(st.sampled_from([2, 1, 5])), "seed": seed, "family": fam,
+            "order": draw(st.sampled_from(gen.ORDERS))}
     if name in rewire.LATMIO:
         if draw(st.booleans()):
             vals = draw(st.lists(st.integers(0, 6), min_size=n * (n - 1) // 2, max_size=n * (n - 1) // 2))
